@@ -40,6 +40,8 @@ func main() {
 		cmdAPI(os.Args[2:])
 	case "consts":
 		cmdConsts(os.Args[2:])
+	case "convk":
+		cmdConvK(os.Args[2:])
 	default:
 		die(70, "unknown command %s", os.Args[1])
 	}
